@@ -68,18 +68,18 @@ def _phase(gpts, order):
         dz = c.real("dz")
         K = MS._fresnel_propagator_array(dz, gpts, samp, 100e3, "cpu", order=order)
         Km = MS._fresnel_propagator_array(-dz, gpts, samp, 100e3, "cpu", order=order)
-        c.prove("propagator.unit_modulus", zand(*[K[i].amp == 1 for i in np.ndindex(K.shape)]), replay=rp)
+        c.prove("propagator.unit_modulus", zand(*[sx.cabs2(K[i]) == 1 for i in np.ndindex(K.shape)]), replay=rp)
         for i in np.ndindex(K.shape):  # one small query per pixel (a conjunction over all pixels does not finish for order 2)
-            c.prove("propagator.minus_dz_is_inverse", sx.turns_mod1_eq((K[i] * Km[i]).tau, 0), replay=rp, info=str(i))
+            c.prove("propagator.minus_dz_is_inverse", sx.phasor_turns_eq(K[i] * Km[i], 0), replay=rp, info=str(i))
         if order == 1:
             spec = []
             for i in range(gpts[0]):
                 for j in range(gpts[1]):
                     ki = (i if i < (gpts[0] + 1) // 2 else i - gpts[0]) / (gpts[0] * _z(samp[0]))
                     kj = (j if j < (gpts[1] + 1) // 2 else j - gpts[1]) / (gpts[1] * _z(samp[1]))
-                    spec.append(sx.turns_mod1_eq(K[i, j].tau, -(ki * ki + kj * kj) * _z(dz) * LAM / 2))
+                    spec.append(sx.phasor_turns_eq(K[i, j], -(ki * ki + kj * kj) * _z(dz) * LAM / 2))
             c.prove("propagator.fresnel_phase", zand(*spec), replay=rp)
-        c.canary("propagator.canary_real", zand(*[sx.turns_mod1_eq(K[i].tau, 0) for i in np.ndindex(K.shape)]))
+        c.canary("propagator.canary_real", zand(*[sx.phasor_turns_eq(K[i], 0) for i in np.ndindex(K.shape)]))
     return fn
 
 
@@ -102,12 +102,16 @@ def _propagator(gpts, order, which):
         back = MS.FresnelPropagator._calculate_array(w, -dz, order=order)
         ok, rev = [], []
         for i in np.ndindex(full.shape):
-            ok.append(zand(full[i].amp >= 0, full[i].amp <= 1, full[i].amp == _real(_z(A[i]))))
+            a2 = _real(_z(A[i])) * _real(_z(A[i]))
+            ok.append(zand(sx.cabs2(full[i]) <= 1, sx.cabs2(full[i]) == a2))
             p = full[i] * back[i]
-            rev.append(zand(sx.turns_mod1_eq(p.tau, 0), p.amp == _real(_z(A[i])) * _real(_z(A[i])), z3.Implies(_z(A[i]) == 1, p.amp == 1)))
+            if isinstance(p, Polar):
+                rev.append(zand(sx.turns_mod1_eq(p.tau, 0), p.amp == a2, z3.Implies(_z(A[i]) == 1, p.amp == 1)))
+            else:
+                rev.append(z3.BoolVal(False))
         c.prove("full_propagator.modulus_is_aperture_le_1", zand(*ok), replay=rp)
         c.prove("full_propagator.dz_then_minus_dz_is_identity_inside_aperture", zand(*rev), replay=rp)
-        c.canary("full_propagator.canary_all_pass", zand(*[full[i].amp == 1 for i in np.ndindex(full.shape)]))
+        c.canary("full_propagator.canary_all_pass", zand(*[sx.cabs2(full[i]) == 1 for i in np.ndindex(full.shape)]))
     return fn
 
 
@@ -143,9 +147,9 @@ def _transmission(c):
     c.pc += sx.pi_axioms() + [SIG > 0]
     Vv = sx.sym_array(c, "v", (2, 2, 2))
     t = IAM.PotentialArray._transmission_function(Vv, 100e3)
-    c.prove("transmission.unit_modulus_for_real_potential", zand(*[t[i].amp == 1 for i in np.ndindex(t.shape)]), replay=R_T)
-    c.prove("transmission.phase_is_sigma_v", zand(*[sx.turns_mod1_eq(t[i].tau, SIG * _z(Vv[i]) / (2 * sx.PI)) for i in np.ndindex(t.shape)]), replay=R_T)
-    c.canary("transmission.canary", zand(*[sx.turns_mod1_eq(t[i].tau, 0) for i in np.ndindex(t.shape)]))
+    c.prove("transmission.unit_modulus_for_real_potential", zand(*[sx.cabs2(t[i]) == 1 for i in np.ndindex(t.shape)]), replay=R_T)
+    c.prove("transmission.phase_is_sigma_v", zand(*[sx.phasor_turns_eq(t[i], SIG * _z(Vv[i]) / (2 * sx.PI)) for i in np.ndindex(t.shape)]), replay=R_T)
+    c.canary("transmission.canary", zand(*[sx.phasor_turns_eq(t[i], 0) for i in np.ndindex(t.shape)]))
 
 
 R_T = make("""
